@@ -9,7 +9,7 @@ BUDGET = {
 DECIDING = ["hitsound_copy"]
 RULE = ("Pairs of osu charts drawn on a shared pool of times (disjoint / partial / full overlap), 0..4 target notes per time, per "
         "time 0..3 of each default sound over 1..3 volumes and 0..4 named samples (some duplicated), hits and holds on both sides, "
-        "targets that already carry hitsounds/samples, unsorted lists; the monitor on hitsound_copy judges six clauses: notes equal "
+        "targets that already carry hitsounds/samples, unsorted lists, times up to an hour with target notes 0.5..3 ms off a source time; the monitor on hitsound_copy judges six clauses: notes equal "
         "the target's, default sounds bounded by the source per time, capacity, named samples conserved (notes + event samples), "
         "no unexplained sound, inputs unchanged.")
 TOLERANCES = {"time": "exact float equality (the algorithm matches times exactly)"}
@@ -40,15 +40,23 @@ def gen_side(rng, times, keys, rich):
 
 
 def gen(rng, tier, k):
-    cls = rng.choice(["clean_target", "clean_target", "overflow", "dirty_target", "unsorted", "disjoint"])
+    cls = rng.choice(["clean_target", "clean_target", "overflow", "dirty_target", "unsorted", "disjoint", "late_near_miss"])
     keys = rng.choice([4, 7])
-    pool = sorted({float(rng.randint(0, 40) * 125) + rng.choice([0.0, 0.0, 0.5]) for _ in range(rng.randint(1, 14))})
+    base = rng.choice([0.0, 0.0, 0.0, 95000.0, 180000.0, 600000.0, 3600000.0]) if cls != "late_near_miss" else rng.choice([120000.0, 180000.0, 600000.0, 3600000.0])
+    pool = sorted({base + float(rng.randint(0, 40) * 125) + rng.choice([0.0, 0.0, 0.5]) for _ in range(rng.randint(1, 14))})
     ts = pool if cls != "disjoint" else pool[: len(pool) // 2]
     tt = pool if cls != "disjoint" else pool[len(pool) // 2:]
     ts = [t for t in ts if rng.random() < 0.8]
     tt = [t for t in tt if rng.random() < 0.8]
     sh, sl, shx, slx = gen_side(rng, ts, keys, True)
     th, tl, thx, tlx = gen_side(rng, tt, keys if cls != "overflow" else 2, cls == "dirty_target")
+    if cls == "late_near_miss":
+        # target notes 0.5..3 ms away from source times (never at them): nothing may be copied onto them
+        for t in ts[: rng.randint(1, 4)]:
+            for d in rng.sample([-3.0, -2.0, -1.0, -0.5, 0.5, 1.0, 2.0, 3.0], rng.randint(1, 3)):
+                if (t + d) not in ts:
+                    th.append([t + d, rng.randrange(keys)])
+                    thx.append([0, 0, 0, 0, 0, ""])
     if cls == "overflow" and ts:
         # many named samples at one time, few slots
         t = rng.choice(ts)
